@@ -131,6 +131,11 @@ def contains(I, cont, x):
         ci = I.class_of(cont)
         if ci is not None and ci.find_method("__contains__"):
             return I.truth(I.call_method_ast(cont, "__contains__", [x], {}))
+        # protocol object declared with R.objtype(...) without a class: `x in obj` goes through its function-typed
+        # field `__contains__` (contract declared with R.funtype)
+        fld = cont.fields.get("__contains__")
+        if isinstance(fld, VFunc) and not I.spec:
+            return I.truth(I.call(fld, [x], {}))
     if I.spec:
         raise Unsupported("'in' on %s" % type(cont).__name__)
     I.raise_exc("TypeError", "argument is not iterable")
@@ -1200,7 +1205,23 @@ def bi_round(I, args, kw):
 
 
 def bi_sum(I, args, kw):
-    raise Unsupported("sum()")
+    """sum(xs) of a tuple / a list of statically known length (e.g. a generator over a fixed-key dict): the
+    elements are added left to right starting from 0 (exact).  A symbolic-length sequence stays unsupported."""
+    if len(args) != 1 or kw:
+        raise Unsupported("sum() with start")
+    v = I.force(args[0])
+    if isinstance(v, VEmptyList):
+        return VInt(0)
+    if isinstance(v, VTuple):
+        items = list(v.items)
+    elif isinstance(v, VSeq) and isinstance(const_of(VInt(v.n)), int) and const_of(VInt(v.n)) <= 64:
+        items = [v.get(z3.IntVal(j)) for j in range(const_of(VInt(v.n)))]
+    else:
+        raise Unsupported("sum()")
+    acc = VInt(0)
+    for x in items:
+        acc = I.binop(ast.Add(), acc, x)
+    return acc
 
 
 def bi_any_all(is_any):
